@@ -17,6 +17,7 @@ mod e2e;
 mod frame;
 mod ids;
 mod life;
+mod limits;
 mod peer;
 mod reasm;
 mod recvcredit;
@@ -80,6 +81,7 @@ fn main() {
         "recvcredit" => recvcredit::main(&opts),
         "reasm" => reasm::main(&opts),
         "ids" => ids::main(&opts),
+        "limits" => limits::main(&opts),
         "connlife" => connlife::main(&opts),
         "settle" => settle::main(&opts),
         "sessionwire" => sessionwire::main(&opts),
